@@ -99,7 +99,12 @@ func Fill(r *Rand, s *schema.Struct, v reflect.Value, c *ValCfg, depth int) {
 		fv.Set(Value(r, f.T, c, f.Req == schema.Optional, depth))
 	}
 	if s.HasUnknown && c.Holder && (c.HolderAlways || r.Chance(1, 3)) {
-		ref.SetHolder(s, v, UnknownFields(r, s, 1+r.Intn(3)))
+		h := UnknownFields(r, s, 1+r.Intn(3))
+		if c.HolderAlways && r.Bool() {
+			// a payload that does not fit next to the struct in the decoder's current block
+			h = append(h, BigUnknownField(r, s, []int{200, 300, 1500, 2500}[r.Intn(4)])...)
+		}
+		ref.SetHolder(s, v, h)
 	}
 }
 
@@ -229,6 +234,16 @@ func UnknownFields(r *Rand, s *schema.Struct, n int) []byte {
 		b = AppendRandomField(r, b, id, 2)
 	}
 	return b
+}
+
+// BigUnknownField renders one well-formed string field of n bytes under an id s does not declare.
+func BigUnknownField(r *Rand, s *schema.Struct, n int) []byte {
+	id := uint16(20000 + r.Intn(20000))
+	for s.FieldByID(id) != nil {
+		id++
+	}
+	b := []byte{11, byte(id >> 8), byte(id), byte(n >> 24), byte(n >> 16), byte(n >> 8), byte(n)}
+	return append(b, r.Bytes(n)...)
 }
 
 var valueWireTypes = []byte{2, 3, 4, 6, 8, 10, 11, 12, 13, 14, 15}
